@@ -9,7 +9,7 @@
       every run.  [Sem.front_accepts] is the conjunction  parse succeeds && verdict = SemOk. *)
 From Coq Require Import List Arith ZArith Bool.
 From Gocc Require Import LR.Parse LR.Validate LR.Trees LR.Sound LR.SoundTop LR.SoundGated LR.Complete
-  Front.FUnicode Front.FScan Front.FScanProofs Front.Sem Front.SemProofs Front.SemTop Front.SemRange.
+  Front.FUnicode Front.FScan Front.FScanProofs Front.Sem Front.SemProofs Front.SemTop Front.SemRange Front.FScanTypes.
 Import ListNotations.
 
 (** success of the front-end parser implies the token sequence is a sentence of the grammar the tables were
@@ -88,3 +88,27 @@ Theorem C14_empty_ranges_refused : forall ft cl mn tb fuel toks,
   front_accepts ft tb fuel toks = true /\ no_empty_range cl mn toks.
 Proof. exact front_accepts_r_iff. Qed.
 Print Assumptions C14_empty_ranges_refused.
+
+(** FROM THE BYTES OF THE FILE: the scanner model only produces token types the tables know (-1 .. 21: proved for
+    every source), so the hypotheses about the token list disappear: a grammar FILE the front-end model accepts is a
+    well-formed sentence of the spec; the one remaining side condition (22 < number of terminals of the tables) is
+    evaluated with the tables. *)
+Theorem C14_accepted_source_is_well_formed : forall ft g tb an sf src fuel,
+  valid_backward g tb an = true ->
+  t_gate tb = true -> forallb (fun r => negb (s_recover r)) (t_states tb) = true ->
+  (0 <= ft_colon ft)%Z -> (0 <= ft_semi ft)%Z ->
+  cut_ok g (Z.to_nat (ft_colon ft + 1)) (Z.to_nat (ft_semi ft + 1)) sf = true ->
+  (Z.to_nat (max_ftype + 1) < nterms tb)%nat ->
+  front_accepts_src ft tb fuel src = true ->
+  let toks := strip_eof (fst (fscan_all src)) in
+  sem_wf ft toks /\
+  exists t pr0 X0, nth_error g 0 = Some pr0 /\ rhs pr0 = [X0] /\ wt g X0 t (to_ptoks 0 toks) /\
+    defs_tree g (Z.to_nat (ft_colon ft + 1)) t = map (pmap mk) (tagged_defs ft toks) /\
+    defs ft toks = map (pmap snd) (tagged_defs ft toks).
+Proof. exact front_accepts_src_sound. Qed.
+Print Assumptions C14_accepted_source_is_well_formed.
+
+Theorem C14_scanner_token_types : forall src ts e, fscan_all src = (ts, e) ->
+  Forall (fun t => (-1 <= f_type t <= 21)%Z) ts.
+Proof. exact fscan_all_types_21. Qed.
+Print Assumptions C14_scanner_token_types.
